@@ -45,7 +45,24 @@ def contents(draw, ext):
     lang = LANG_EXT.get(ext)
     if lang is None:
         return draw(st.sampled_from(["hello\n", "", "x\n" * 40]))
-    kind = draw(st.sampled_from(["flat", "flat", "flat", "canonical", "malformed", "latin1", "empty"]))
+    kind = draw(st.sampled_from(["flat", "flat", "flat", "canonical", "malformed", "latin1", "empty", "flat_nocl", "cr"]))
+    if kind in ("flat_nocl", "cr"):
+        ls = draw(st.lists(st.sampled_from([5, 31, 35, 45, 61, 62]), min_size=2, max_size=4))
+        if lang == "Python":
+            ls = [max(2, v) for v in ls]
+        marked = {i for i in range(len(ls)) if draw(st.booleans())} if kind == "flat_nocl" else set()
+        text = tree.flat_file(lang, ls, marked=marked)
+        if kind == "cr":
+            mode = draw(st.sampled_from(["cr-only", "crlf", "stray-cr"]))
+            lead = "#" if lang == "Python" else "//"
+            if mode == "cr-only":
+                text = text.replace("\n", "\r")
+            elif mode == "crlf":
+                text = text.replace("\n", "\r\n")
+            else:
+                text = f"{lead} a stray\rcarriage return\n" + text
+            return {"raw_hex": text.encode("utf-8").hex()}
+        return text
     if kind == "flat":
         ls = draw(st.lists(st.sampled_from([5, 29, 30, 31, 32, 45, 59, 60, 61, 62, 80]), min_size=1, max_size=4))
         if lang == "Python":
@@ -97,7 +114,7 @@ def cases(draw):
         name = path.split("/")[-1]
         ext = name.rsplit(".", 1)[1] if "." in name.lstrip(".") and "." in name else ""
         c = draw(contents(ext))
-        filled[path] = c if isinstance(c, str) else {"latin1_hex": c.hex()}
+        filled[path] = c if isinstance(c, (str, dict)) else {"latin1_hex": c.hex()}
     # headers and other extensions whose lexer Pygments has to choose among several candidates: scan decides, check must agree
     for _ in range(draw(st.integers(0, 3))):
         d = draw(st.sampled_from([""] + [x + "/" for x in dirs if not G.hidden(x)][:6]))
@@ -119,7 +136,7 @@ def cases(draw):
 
 
 def _materialise(files):
-    return {p: (bytes.fromhex(c["latin1_hex"]) if isinstance(c, dict) else c) for p, c in files.items()}
+    return {p: (bytes.fromhex(c.get("latin1_hex") or c.get("raw_hex")) if isinstance(c, dict) else c) for p, c in files.items()}
 
 
 def run_case(case):
